@@ -78,7 +78,7 @@ func rulePrecisionStepAgreement(r *Report, rule string) {
 		okStep := false
 		ast.Inspect(fi.Decl.Body, func(x ast.Node) bool {
 			if as, ok := x.(*ast.AssignStmt); ok && as.Tok == token.ADD_ASSIGN && len(as.Lhs) == 1 {
-				if id, ok := as.Lhs[0].(*ast.Ident); ok && id.Name == "shift" {
+				if _, ok := as.Lhs[0].(*ast.Ident); ok {
 					if c, ok := info.ObjectOf(baseIdent(as.Rhs[0])).(*types.Const); ok && strings.Contains(c.Name(), "PrecisionStep") {
 						okStep = true
 					}
@@ -155,11 +155,20 @@ func rulePrefixCodedAgreement(r *Report, rule string) {
 	form := func(fi *FuncInfo) string {
 		out := ""
 		ast.Inspect(fi.Decl.Body, func(x ast.Node) bool {
-			if as, ok := x.(*ast.AssignStmt); ok && len(as.Lhs) == 1 {
-				if id, ok := as.Lhs[0].(*ast.Ident); ok && id.Name == "nChars" && as.Tok == token.DEFINE {
-					s := exprStr(as.Rhs[0])
-					s = strings.NewReplacer("int(shift)", "shift", " ", "").Replace(s)
-					out = s
+			// the data-length computation by role: a definition whose right-hand side divides by the 7-bit digit width;
+			// local variable names are normalised away (every variable becomes $, conversions of a variable are dropped)
+			if as, ok := x.(*ast.AssignStmt); ok && len(as.Lhs) == 1 && len(as.Rhs) == 1 && as.Tok == token.DEFINE {
+				div7 := false
+				ast.Inspect(as.Rhs[0], func(y ast.Node) bool {
+					if be, ok := y.(*ast.BinaryExpr); ok && be.Op == token.QUO {
+						if k, isC := intConst(fi.Pkg.TypesInfo, be.Y); isC && k == 7 {
+							div7 = true
+						}
+					}
+					return true
+				})
+				if div7 {
+					out = normaliseLocals(fi.Pkg.TypesInfo, as.Rhs[0])
 				}
 			}
 			return true
@@ -329,4 +338,35 @@ func ruleEnumeratorRadix(r *Report, rule string) {
 		return true
 	})
 	r.Ob(rule, en.Name+"/successor-carries-at-the-encoder-radix", inc.Decl.Pos(), radix128, "termRange.Enumerate walks from the start term to the end term with "+inc.Obj.Name()+", which carries at byte overflow (base 256) although the data bytes of a prefix-coded term are 7-bit digits (base 128): a leaf range that straddles a 7-bit group boundary enumerates 256^k invalid terms (int64 -1..1, i.e. a date range around the epoch, needs ~2^72 steps: the query does not terminate)")
+}
+
+// normaliseLocals renders an expression with every local variable replaced by $ and
+// type conversions of a single variable dropped, so that two functions computing the
+// same formula over differently named (or typed) locals compare equal.
+func normaliseLocals(info *types.Info, e ast.Expr) string {
+	var rec func(e ast.Expr) string
+	rec = func(e ast.Expr) string {
+		switch x := ast.Unparen(e).(type) {
+		case *ast.Ident:
+			if v, ok := info.ObjectOf(x).(*types.Var); ok && !v.IsField() {
+				return "$"
+			}
+			return x.Name
+		case *ast.BinaryExpr:
+			return "(" + rec(x.X) + x.Op.String() + rec(x.Y) + ")"
+		case *ast.CallExpr:
+			if tv, ok := info.Types[x.Fun]; ok && tv.IsType() && len(x.Args) == 1 {
+				return rec(x.Args[0]) // conversion
+			}
+			var as []string
+			for _, a := range x.Args {
+				as = append(as, rec(a))
+			}
+			return exprStr(x.Fun) + "(" + strings.Join(as, ",") + ")"
+		case *ast.BasicLit:
+			return x.Value
+		}
+		return exprStr(e)
+	}
+	return rec(e)
 }
